@@ -2,7 +2,7 @@
    conditions under a right-inverse rank condition (restated over R from EFModel.C04_Approx / C04_Saddle /
    C04_SaddleTie / C04_Rank) *)
 From Coq Require Import ZArith List Bool Lia Reals RealField Lra.
-From EFModel Require Import C03_Csr C04_Solve C04_Approx C04_Saddle C04_SaddleTie C04_Rank.
+From EFModel Require Import C03_Csr C04_Solve C04_Approx C04_Saddle C04_SaddleTie C04_Rank C04_Spd.
 Import ListNotations.
 Open Scope Z_scope.
 
@@ -148,4 +148,53 @@ Proof.
     + intros w Hw. rewrite Hres. specialize (Hw 0 ltac:(lia)). rewrite HG in Hw. lra.
   - intros x x' Hx Hx' i Hi. destruct (Hsol x Hx) as [E0 E1]. destruct (Hsol x' Hx') as [E0' E1'].
     assert (i = 0 \/ i = 1) as [->| ->] by lia; congruence.
+Qed.
+
+(* T14: the last hypothesis of T12 discharged for definite operators.  If A is positive definite on the constraint
+   kernel -- w^T A w = 0 only for w = 0 among the vectors with G w = 0, e.g. an elastic stiffness (symmetric positive
+   semidefinite with exactly the rigid-body kernel: property C02) whose rigid modes are removed by the constraints, or a
+   conductivity matrix with one prescribed temperature -- the constrained problem has at most one solution, hence
+   (T12) the bordered system has exactly one solution.  C02's results are cited, not imported. *)
+Theorem C04_constrained_problem_unique_if_definite :
+  forall n m A b G h, pos_def_on_ker n m A G ->
+  forall x x', reduced_sol R 0%R Rplus Rmult Rminus n m A b G h x -> reduced_sol R 0%R Rplus Rmult Rminus n m A b G h x' ->
+  forall i, 0 <= i < n -> x i = x' i.
+Proof. exact reduced_unique_from_pos_def. Qed.
+
+(* the usual formulation implies the one used above *)
+Lemma C04_strictly_positive_is_definite :
+  forall n m A G,
+  (forall w, kerG R 0%R Rplus Rmult n m G w -> (exists i, 0 <= i < n /\ w i <> 0%R) -> (0 < quad n A w)%R) ->
+  pos_def_on_ker n m A G.
+Proof.
+  intros n m A G H w Hk Hq i Hi. destruct (Req_dec (w i) 0%R) as [E|E]; [assumption|].
+  exfalso. specialize (H w Hk (ex_intro _ i (conj Hi E))). lra.
+Qed.
+
+Theorem C04_bordered_mpc_unique_definite :
+  forall n (alpha : R) A b dofsD (valuesD : list R) (lags : list (lagc R)) (Rm : Z -> Z -> R),
+  alpha <> 0%R -> 0 <= n -> length valuesD = length dofsD ->
+  (forall d, In d dofsD -> 0 <= d < n) -> (forall c d, In c lags -> In d (l_dofs R c) -> 0 <= d < n) ->
+  let m := Z.of_nat (length dofsD) + Z.of_nat (length lags) in
+  let G := Gb R 0%R 1%R Rplus dofsD lags in
+  (forall k k', 0 <= k < m -> 0 <= k' < m ->
+     sum_over R 0%R Rplus (zrange n) (fun i => G k i * Rm i k')%R = if k =? k' then 1%R else 0%R) ->
+  pos_def_on_ker n m A G ->
+  forall x lam mu x' lam' mu',
+  bordered_solution R 0%R Rplus Rmult n alpha A b dofsD valuesD lags x lam mu ->
+  bordered_solution R 0%R Rplus Rmult n alpha A b dofsD valuesD lags x' lam' mu' ->
+  (forall i, 0 <= i < n -> x i = x' i) /\ lam = lam' /\ mu = mu'.
+Proof.
+  intros n alpha A b dofsD valuesD lags Rm Ha Hn HL HD HLg m G HG Hpd.
+  apply (C04_bordered_mpc_unique n alpha A b dofsD valuesD lags Rm Ha Hn HL HD HLg HG).
+  now apply reduced_unique_from_pos_def.
+Qed.
+Print Assumptions C04_constrained_problem_unique_if_definite.
+Print Assumptions C04_bordered_mpc_unique_definite.
+
+(* non-vacuity: A = 2 I is positive definite on every kernel *)
+Example C04_definite_example : forall m G, pos_def_on_ker 2 m cA G.
+Proof.
+  intros m G w _ Hq i Hi. unfold quad, sum_over, cA in Hq. simpl in Hq.
+  assert (i = 0 \/ i = 1) as [->| ->] by lia; nra.
 Qed.
